@@ -190,6 +190,22 @@ ROUND12 = {
     'C16': " Round 12: the teardown of a run shuts down the MeterProvider of its telemetry client (a finished run's exporter does not write into the next run).",
 }
 
+# obligations added in round 13 (and by the sweeps of the zeromq.py constructors and of the date parsing in utils.py)
+ROUND13 = {
+    'C01': " Round 13: the three states of a source's set ('none' / 'some' / 'all') are computed as the receive loop takes them (table by partial evaluation).",
+    'C02': " Round 13: a cached JPEG exists only for pixels that can no longer change (share of C09.R9); subscription spellings decided by partial evaluation when the one-expression form is not there.",
+    'C03': " Round 13: the (source, destination) pairs of every subscription spelling ('a', 'a>b', '>b', 'a>', '>', '') are what the documentation says (table by partial evaluation).",
+    'C04': " Round 13: a CLOSE removes the closing connection only, not every connection that carries the same client id.",
+    'C05': " Round 13: the ephemeral level of an address ('?' = 1, '??' = 2: no request socket, never sent a request) by partial evaluation; the CLI gives every consumer the bare address with its own suffix (share of C12.R2).",
+    'C06': " Round 13: the CLOSE of a source resets the expected id kept for it whatever the listener holds; ipc socket files are recognised by more than their inode number.",
+    'C08': " Round 13: what the out-of-band callback raises (the obeyed exit, with its kind) leaves the message layer; which date / times are re-read by the local zone's rules (sense, by partial evaluation).",
+    'C12': " Round 13: the port of a dedicated metrics output is reserved.",
+    'C13': " Round 13: the 'end' position is derived from a delimiter that was found (the backward search does not stop after one block).",
+    'C15': " Round 13: what is stored through a local alias of an attribute is held by the attribute (the publisher's address table).",
+    'C16': " Round 13: read_allowlist() reads its file on every call (no document remembered per process).",
+    'C17': " Round 13: '#rgb' and '#rrggbb' colours mean what they say, six-digit colours with leading zero bytes included (table by partial evaluation).",
+}
+
 NOT_APPLICABLE = {
     'C11': 'Every clause is an equality between values computed by string parsing over an unbounded grammar; there is no renderer to pair with the parsers and the only structural facts in reach are already caught by the existing test_normalize_config tests, so a static proxy would detect nothing new (DESIGN.md §5).',
 }
@@ -204,7 +220,7 @@ def main():
         if pid not in reg:
             continue
         tech, text, ref, nd = CLAIMS[pid]
-        text += ROUND6.get(pid, '') + ROUND7.get(pid, '') + ROUND8.get(pid, '') + ROUND9.get(pid, '') + ROUND10.get(pid, '') + ROUND11.get(pid, '') + ROUND12.get(pid, '')
+        text += ROUND6.get(pid, '') + ROUND7.get(pid, '') + ROUND8.get(pid, '') + ROUND9.get(pid, '') + ROUND10.get(pid, '') + ROUND11.get(pid, '') + ROUND12.get(pid, '') + ROUND13.get(pid, '')
         checks.append({
             'property_id': pid,
             'quick_cmd': f'./check {pid} --tier quick',
